@@ -155,8 +155,14 @@ def names_checks(ctx, binp):
                     bad.append((s, -1, m[j] if j < len(m) else "?", r[j]))
     ctx.cov["discharged"] += len(cases) - min(len(cases), len(bad))
     ctx.cov["evaluations"] += total
-    ctx.cov["distinct_nontrivial"] += total
+    # distinct strings REALLY compared: the enumerated ones are pairwise distinct by construction (every string over the alphabet
+    # of length <= maxlen exactly once); a mutated spelling counts only if it is not among them
+    maxlen = len(prefixes[0]) + n
+    enumerated = total - len(muts)
+    distinct = enumerated + len({m for m in muts if not (set(m) <= set(ALPHABET) and len(m) <= maxlen)})
+    ctx.cov["distinct_nontrivial"] += distinct
     ctx.count("regex_strings_compared", total)
+    ctx.count("regex_strings_distinct", distinct)
     ctx.log(f"S4 regex engine vs PMType::from_str: {total} strings compared, {len(bad)} disagreements")
     for b in bad[:5]:
         detail = {"prefix_or_string": b[0], "n": b[1], "model": b[2][:200], "implementation": b[3][:200]}
@@ -242,6 +248,8 @@ def cfg_checks(ctx, binp, spans):
             else:
                 ctx.cov["discharged"] += 1
     # ---- S5: the property's clauses on the implementation
+    omitted = omitted_table()
+    omitted_seen = set()
     for o in obs:
         if o.get("kind") == "harness_crash":
             ctx.violation("S5", "harness crashed", {"kind": "crash"}, o)
@@ -255,24 +263,40 @@ def cfg_checks(ctx, binp, spans):
             ctx.violation("S5", f"a valid configuration does not deserialise: {o.get('parse_msg')}", {"kind": "parse"}, detail)
             continue
         c0 = o["cfg"]
-        # documented defaults of omitted fields
+        # documented defaults of omitted fields: EVERY field that may be omitted, the expected value from the generated table
         for t in o["tags"]:
             if not t.startswith("omit:"):
                 continue
             f = t[5:]
-            okd = {"crystal.phi_deg": lambda: f64_of_hex(c0["crystal"]["phi_deg"]) == 0.0,
-                   "crystal.theta_deg": lambda: c0["crystal"]["theta_deg"] == "auto",
-                   "signal.phi_deg": lambda: f64_of_hex(c0["signal"]["phi_deg"]) == 0.0,
-                   "signal.waist_position_um": lambda: c0["signal"]["waist_position_um"] == "auto",
-                   "idler": lambda: c0["idler"] == "auto",
-                   "periodic_poling": lambda: c0["pp"] == "off",
-                   "pump.spectrum_threshold": lambda: c0["pump"]["threshold"] is None and
-                   (o["real"]["class"] != "ok" or f64_of_hex(o["real"]["setup"]["threshold"]) == 0.01)}.get(f, lambda: True)()
             ctx.count("default:" + f)
+            if f == "pump.spectrum_threshold":
+                okd = c0["pump"]["threshold"] is None and (o["real"]["class"] != "ok" or f64_of_hex(o["real"]["setup"]["threshold"]) == 0.01)
+            elif f in OMIT_FIELDS:
+                key, where = OMIT_FIELDS[f]
+                if key not in omitted:
+                    ctx.violation("S5", f"field {key} is omitted by the stream but is not in the generated list of fields that may be omitted",
+                                  {"kind": "default", "field": f}, detail, found_input=False)
+                    continue
+                omitted_seen.add(key)
+                okd = is_omitted_value(get(c0, where), omitted[key])
+            else:
+                ctx.violation("S5", f"stream tag {t} is unknown to the check", {"kind": "default", "field": f}, detail, found_input=False)
+                continue
             if not okd:
-                ctx.violation("S5", f"omitted field {f} does not take its documented default", {"kind": "default", "field": f}, detail)
+                ctx.violation("S5", f"omitted field {f} does not take its documented default (parsed: {get(c0, OMIT_FIELDS.get(f, ('', f))[1])!r})",
+                              {"kind": "default", "field": f}, detail)
+        expr = c0["crystal"]["kind"] == "Expr"
         if not o.get("cfg_json_roundtrip", True):
-            ctx.violation("S5", "JSON serialisation of a configuration is not loss-free (to_string / from_str)", {"kind": "json_lossy", "which": "input"}, detail)
+            ctx.violation("S5", "JSON serialisation of a configuration is not loss-free (to_string / from_str)"
+                          + (": a crystal given by expressions is written as \"kind\": {} (the expressions are #[serde(skip_serializing)])" if expr else ""),
+                          {"kind": "json_lossy", "which": "input", "crystal": "Expr" if expr else "builtin"}, dict(detail, text=o.get("cfg_json_text")))
+        # ... compared FIELD BY FIELD on the exact dumps (not through the derived PartialEq)
+        if "cfg_back" in o:
+            d = exact_diff(c0, o["cfg_back"])
+            ctx.count("json_roundtrip_fieldwise")
+            if d and not expr:
+                ctx.violation("S5", f"JSON round trip of a configuration changes {[x[0] for x in d][:5]}: {d[0][1]!r} -> {d[0][2]!r}",
+                              {"kind": "json_lossy", "which": "input_fieldwise", "field": d[0][0]}, dict(detail, text=o.get("cfg_json_text"), diff=d[:8]))
         r = o["real"]
         if r["class"] != "ok":
             ctx.count("not_ok:" + cc.real_class(r))
@@ -307,7 +331,7 @@ def cfg_checks(ctx, binp, spans):
             if abs(cvf - phys) > 0.5e-4 * (1 + 1e-9) + 1e-12 * abs(phys):
                 ctx.violation("S5", f"exported {cpath} = {cvf!r} but the setup's value in that unit is {phys!r} (more than 0.5e-4 apart)",
                               {"kind": "roundtrip_field", "field": cpath}, dict(detail, exported=cvf, physical=phys))
-            elif rounded and abs(cvf * 1e4 - round(cvf * 1e4)) > 1e-6 * max(1.0, abs(cvf * 1e4)):
+            elif rounded and not four_decimal(cvf):
                 ctx.violation("S5", f"exported {cpath} = {cvf!r} is not a 4-decimal number", {"kind": "roundtrip_not_rounded", "field": cpath}, dict(detail, exported=cvf))
         tc = f64_of_hex(c1["crystal"]["temperature_c"])
         if abs(tc - (f64_of_hex(s["crystal"]["temperature"]) - 273.15)) > 0.5e-4 * (1 + 1e-9) + 1e-10:
@@ -343,11 +367,63 @@ def cfg_checks(ctx, binp, spans):
         if not rt["json1_roundtrip"]:
             back = lossy_fields(rt)
             ctx.violation("S5", "JSON serialisation of the exported configuration is not loss-free: serde_json::from_str(to_string(cfg)) != cfg "
-                          f"(fields with more than 15 significant digits: {back})",
-                          {"kind": "json_lossy", "which": "exported", "field": (back[0].rsplit(".", 1)[-1] if back else "?")},
+                          + ("(a crystal given by expressions is written as \"kind\": {})" if expr else
+                             f"(fields with more than 15 significant digits: {back})"),
+                          {"kind": "json_lossy", "which": "exported", "field": (back[0].rsplit(".", 1)[-1] if back else "?"),
+                           "crystal": "Expr" if expr else "builtin"},
                           dict(detail, exported=rt["json1"], long_fields=back))
+        if "cfg1_back" in rt:
+            d = exact_diff(c1, rt["cfg1_back"])
+            if d and not expr:
+                ctx.violation("S5", f"JSON round trip of the exported configuration changes {[x[0] for x in d][:5]}",
+                              {"kind": "json_lossy", "which": "exported_fieldwise", "field": d[0][0]}, dict(detail, exported=rt["json1"], diff=d[:8]))
+        # the standalone public conversions From<SPDC> for PumpConfig / SignalConfig / IdlerConfig give the same parts
+        if "standalone" in rt:
+            ctx.count("standalone_conversions")
+            d = exact_diff(c1, rt["standalone"])
+            if d:
+                ctx.violation("S5", f"From<SPDC> for Pump/Signal/IdlerConfig differ from the exported configuration in {[x[0] for x in d][:5]}",
+                              {"kind": "standalone_conversion", "field": d[0][0]}, dict(detail, diff=d[:8]))
+        # "auto" = the explicit public optimum call ON THE FINISHED SETUP (stronger than "on the setup built so far")
+        fin = rt.get("final") or {}
+        cin = o["cfg"]
+        if cin["crystal"]["theta_deg"] == "auto" and fin.get("theta") is not None and is_finite_hex(s["crystal"]["theta"]):
+            ctx.count("final:theta")
+            a, b = f64_of_hex(s["crystal"]["theta"]), f64_of_hex(fin["theta"])
+            if a != b:
+                sig_ext = cin["signal"]["theta_deg"] is None
+                nonzero = f64_of_hex(s["signal"]["theta"]) != 0.0
+                ctx.violation("S5", f"auto crystal angle: the setup has theta = {a!r} rad but crystal_setup.optimum_theta(&signal, &pump) on the "
+                              f"finished setup returns {b!r} rad", {"kind": "auto_not_final_optimum", "field": "crystal.theta",
+                                                                    "signal_noncollinear": nonzero}, dict(detail, setup_theta=a, final_optimum=b,
+                                                                                                          signal_given_by_external_angle=sig_ext))
+        if cin["idler"] == "auto" and fin.get("idler") is not None:
+            ctx.count("final:idler")
+            if fin["idler"] != s["idler"] and all(is_finite_hex(v) for v in s["idler"].values() if isinstance(v, str) and v.startswith("0x")):
+                ctx.violation("S5", "auto idler: the setup's idler differs from IdlerBeam::try_new_optimum on the finished setup",
+                              {"kind": "auto_not_final_optimum", "field": "idler"}, dict(detail, setup=s["idler"], final_optimum=fin["idler"]))
+        if cin["pp"] != "off" and cin["pp"]["period_um"] == "auto" and fin.get("period") is not None and s["pp"]["on"]:
+            ctx.count("final:period")
+            sp = f64_of_hex(s["pp"]["period"]) * (1.0 if s["pp"].get("sign", "Pos") in ("Pos", "+", True) else -1.0)
+            if abs(f64_of_hex(fin["period"])) != abs(f64_of_hex(s["pp"]["period"])):
+                ctx.violation("S5", "auto poling period: the setup's period differs from optimum_poling_period on the finished setup",
+                              {"kind": "auto_not_final_optimum", "field": "poling_period"}, dict(detail, setup=sp, final_optimum=f64_of_hex(fin["period"])))
+        for which, key in (("signal", "zs"), ("idler", "zi")):
+            src_auto = (cin["signal"]["waist_position_um"] == "auto") if which == "signal" else \
+                (cin["idler"] == "auto" or cin["idler"]["waist_position_um"] == "auto")
+            if src_auto and fin.get(key) is not None and is_finite_hex(s[key]):
+                ctx.count("final:" + key)
+                if fin[key] != s[key]:
+                    ctx.violation("S5", f"auto {which} waist position differs from optimal_waist_position on the finished setup",
+                                  {"kind": "auto_not_final_optimum", "field": key}, dict(detail, setup=s[key], final_optimum=fin[key]))
         if not o.get("spdc_json_equals_config_json", True):
             ctx.violation("S5", "serialising the setup differs from serialising its configuration", {"kind": "spdc_serde"}, detail)
+    # every field that may be omitted HAS been omitted by the stream at least once
+    if not getattr(ctx, "replay", None):
+        missing = sorted(set(omitted) - omitted_seen)
+        if missing:
+            ctx.violation("S5", f"the stream never omitted {missing}: their defaults were not exercised", {"kind": "default_coverage"},
+                          {"missing": missing}, found_input=False)
     for o in obs:
         if o.get("kind") == "cfg" and o["parse"] == "ok" and o["real"]["class"] == "ok" and o.get("roundtrip"):
             ctx.sample({"config": o["json"], "exported": json.loads(o["roundtrip"].get("json1", "{}") or "{}")}, limit=4)
@@ -367,7 +443,9 @@ def json_float_checks(ctx, binp):
         return
     total = sum(o["counts"].values()) + o["hard_strings"] + o["configs"]
     ctx.cov["evaluations"] += total
-    ctx.cov["distinct_nontrivial"] += total
+    # distinct cases REALLY tested: the harness keeps the set of bit patterns / strings / configuration texts
+    ctx.cov["distinct_nontrivial"] += o["distinct_values"] + o["distinct_hard_strings"] + o["distinct_configs"]
+    ctx.cov["json_float_distinct"] = {"values": o["distinct_values"], "hard_strings": o["distinct_hard_strings"], "configs": o["distinct_configs"]}
     ctx.count("json_float_roundtrips", total)
     ctx.cov["json_float_classes"] = o["counts"]
     ctx.cov["json_nonfinite_behaviour"] = o["nonfinite"]
@@ -431,6 +509,64 @@ def tie_field(setup, c1, field, udiv):
     return False
 
 
+def exact_diff(a, b, path=""):
+    """fields in which two exact configuration dumps differ (bit patterns compared as text, booleans and names as they are)"""
+    if isinstance(a, dict) and isinstance(b, dict):
+        out = []
+        for k in sorted(set(a) | set(b)):
+            out += exact_diff(a.get(k), b.get(k), path + "." + k if path else k)
+        return out
+    if isinstance(a, list) and isinstance(b, list) and len(a) == len(b):
+        out = []
+        for i, (x, y) in enumerate(zip(a, b)):
+            out += exact_diff(x, y, f"{path}[{i}]")
+        return out
+    return [] if a == b else [(path, a, b)]
+
+
+def omitted_table():
+    """field -> value an omitted field takes, as the generator derived it from the source (Gen/ConfigConv.v serde_omitted_values,
+    proved equal to the documented Spec/ConfigSpec.v spec_omitted_values)"""
+    import re
+    src = open(os.path.join(COQ, "Gen", "ConfigConv.v")).read()
+    m = re.search(r"Definition serde_omitted_values[^=]*:=\s*\[(.*?)\]\.", src, re.S)
+    return dict(re.findall(r'\("([^"]*)", "([^"]*)"\)', m.group(1))) if m else {}
+
+
+# stream tag -> (generated table key, where the field sits in the exact dump of the parsed configuration)
+OMIT_FIELDS = {
+    "crystal.phi_deg": ("CrystalConfig.phi_deg", "crystal.phi_deg"),
+    "crystal.theta_deg": ("CrystalConfig.theta_deg", "crystal.theta_deg"),
+    "crystal.counter_propagation": ("CrystalConfig.counter_propagation", "crystal.counter"),
+    "signal.phi_deg": ("SignalConfig.phi_deg", "signal.phi_deg"),
+    "signal.waist_position_um": ("SignalConfig.waist_position_um", "signal.waist_position_um"),
+    "idler.phi_deg": ("IdlerConfig.phi_deg", "idler.phi_deg"),
+    "idler.waist_position_um": ("IdlerConfig.waist_position_um", "idler.waist_position_um"),
+    "idler": ("SPDCConfig.idler", "idler"),
+    "periodic_poling": ("SPDCConfig.periodic_poling", "pp"),
+    "periodic_poling.apodization": ("PeriodicPolingConfig.Config.apodization", "pp.apod.kind"),
+}
+
+
+def is_omitted_value(v, want):
+    if want == "0":
+        return isinstance(v, str) and v.startswith("0x") and f64_of_hex(v) == 0.0
+    if want == "false":
+        return v is False
+    if want == "auto":
+        return v == "auto"
+    if want == "Off":
+        return v in ("off", "Off")
+    return False
+
+
+def four_decimal(x):
+    """x is the binary64 nearest to k / 10^4 for an integer k (exact rational test, no tolerance)"""
+    from fractions import Fraction
+    k = round(Fraction(x) * 10000)
+    return float(Fraction(k, 10000)) == x
+
+
 def cfg_diff(a, b, path=""):
     """numeric differences between two exact configuration dumps beyond 1e-9 relative; angles modulo 360"""
     out = []
@@ -474,7 +610,7 @@ def run(ctx):
     nbad += cfg_checks(ctx, binp, spans)
     if not getattr(ctx, "replay", None):
         json_float_checks(ctx, binp)
-    if (not proved or nbad) and not any(v["found_input"] for v in ctx.violations):
+    if (not proved or nbad) and not cc.unknown_failing_input(ctx):
         ctx.log("S5 deep search for a failing input (proof obligations / correspondence are broken)")
         save = ctx.tier
         ctx.tier = "thorough"
@@ -489,14 +625,25 @@ def run(ctx):
                        "stream (11 crystals x types x spellings x auto/explicit x apodization kinds x omitted optional fields) + targeted asymmetric / "
                        "wrap-around cases; distinct = distinct JSON text / distinct string")
     ctx.cov["clauses"] = {
-        "exported fields = physical value rounded to 4 decimals in the field's unit": "proved (generated conversion = unit table; |x - round4 x| <= 0.5e-4) + validated; idler waist position is exported UNROUNDED by the code",
+        "exported fields = physical value rounded to 4 decimals in the field's unit": "proved (generated conversion = unit table; |x - round4 x| <= 0.5e-4; "
+            "every exported number incl. the idler waist position and the Gaussian FWHM goes through sigfigs: flags read off the source) + validated: "
+            "each exported number IS the binary64 nearest to k/10^4 (exact rational test); the standalone From<SPDC> for Pump/Signal/IdlerConfig are "
+            "generated too and proved to be the parts of the exported configuration",
         "second round trip stable": "proved (reals, all oracles) for angles away from the wrap-around + validated to 1e-9",
-        "JSON loss-free": "validated_only (serde_json with float_roundtrip + ryu are external): every finite f64 prints and parses back to the same "
-                          "bits on 2e5 (quick) / 1e7 (thorough) values incl. subnormals, 17-digit values, hard decimal strings, whole configurations; "
-                          "every exported number is a 4-decimal value (proved) except threshold/apodization parameters; NaN/inf are written as null and do "
-                          "not read back (recorded in the evidence)",
-        "auto = explicit optimum call": "proved (all oracles: same arguments, same order) + validated bit-exactly",
-        "omitted fields take documented defaults": "proved (generated Default impls / serde(default) list vs spec) + validated",
+        "JSON loss-free": "validated_only (serde_json with float_roundtrip + ryu are external): every configuration of the stream (every boolean / enum "
+                          "value) is compared FIELD BY FIELD after to_string / from_str, the serde attributes of every configuration type, field "
+                          "and variant are pinned exactly (serde_attributes_documented); every finite f64 prints and parses back to the same bits "
+                          "on 2e5 (quick) / 1e7 (thorough) values incl. subnormals, 17-digit values, hard decimal strings, whole configurations "
+                          "(distinct = distinct bit patterns); NaN/inf are written as null and do not read back (recorded); KNOWN: expression "
+                          "crystals are written as {} (F23)",
+        "auto = explicit optimum call": "proved (all oracles: same arguments, same order) for the setup built so far + validated bit-exactly; on the "
+                                        "FINISHED setup: idler / waist positions / poling period proved and validated bit-exactly, crystal angle proved "
+                                        "for collinear signals (C16_auto_theta_final_composed) and validated; it FAILS for non-collinear signals: "
+                                        "known finding F22",
+        "omitted fields take documented defaults": "proved: the generated table of what every omittable field means when omitted (serde(default) + "
+                                                   "the type's Default) equals the documented one; a default through a function is refused by the "
+                                                   "generator + validated: the stream omits EVERY such field (incl. apodization, idler.phi_deg, "
+                                                   "counter_propagation) and the check requires each to have been omitted at least once",
         "every type/polarization/crystal parses from printed form and documented spellings": "proved (finite enumeration over generated regex literals, verified matcher)",
         "parse soundness (any string that parses spells the type's signal/idler letters)": "proved for all strings",
         "type fixes the polarizations its name states; inverse swaps": "proved"}
